@@ -14,7 +14,8 @@ from mc.core import explorer, harness
 
 LEVEL = "model_checking"
 
-FRAMES = ["world", "a", "b", "c"]
+# frame names are arbitrary hashables: include a falsy one (the integer 0)
+FRAMES = ["world", "a", "b", 0]
 UNKNOWN = "zz"
 
 
@@ -35,7 +36,9 @@ def _mat(name):
         m = _rot(2, 1)
         m[:3, 3] = [1, 0, 0]
     elif name == "M2":
+        # not rigid: rotation about x times uniform scale 2 (powers of two: inverse is exact)
         m = _rot(0, 1)
+        m[:3, :3] *= 2.0
         m[:3, 3] = [0, 2, 0]
     elif name == "S":
         m = np.diag([2.0, 2.0, 2.0, 1.0])
@@ -178,8 +181,8 @@ class System:
             for m in self.mats:
                 acts.append(["update", child, parent, m])
         for m in self.mats:
-            if not ref.would_cycle("c", ref.base):
-                acts.append(["setitem", "c", m])
+            if not ref.would_cycle(0, ref.base):
+                acts.append(["setitem", 0, m])
         for x in self.frames:
             acts.append(["remove", x])
         for x in self.frames:
@@ -280,7 +283,7 @@ class System:
         # entries that will actually be served: none if the cache is flushed on next access
         live = g._cache.id_current == effective
         return (
-            tuple(sorted(f.parents.items())),
+            tuple(sorted(f.parents.items(), key=str)),
             edges,
             tuple((k, v.get("geometry")) for k, v in f.node_data.items()),
             tuple(sorted((str(k), str(v)) for k, v in f._cache.items())),
@@ -288,10 +291,10 @@ class System:
             memo_state,
             g.base_frame,
             # the model side (so that impl-equal / model-different states are not merged)
-            tuple(sorted(ref.parent.items())),
-            tuple(sorted((k, mid(v)) for k, v in ref.matrix.items())),
+            tuple(sorted(ref.parent.items(), key=str)),
+            tuple(sorted(((k, mid(v)) for k, v in ref.matrix.items()), key=str)),
             tuple(ref.nodes),
-            tuple(sorted(ref.geometry.items())),
+            tuple(sorted(ref.geometry.items(), key=str)),
             ref.base,
         )
 
@@ -421,19 +424,19 @@ def _invariant(ctx, frames, reverse=False):
         nodes = sorted(str(n) for n in g.nodes)
     except Exception as e:
         return [("nodes raises", {"exc": repr(e)})]
-    if nodes != sorted(ref.nodes):
-        return [("nodes differ from frames in the forest", {"got": nodes, "want": sorted(ref.nodes)})]
+    if nodes != sorted(str(n) for n in ref.nodes):
+        return [("nodes differ from frames in the forest", {"got": nodes, "want": sorted(str(n) for n in ref.nodes)})]
     try:
-        ng = sorted(g.nodes_geometry)
-        gn = {k: sorted(v) for k, v in g.geometry_nodes.items()}
+        ng = sorted(g.nodes_geometry, key=str)
+        gn = {k: sorted(v, key=str) for k, v in g.geometry_nodes.items()}
     except Exception as e:
         return [("nodes_geometry raises", {"exc": repr(e)})]
-    if ng != sorted(ref.geometry):
-        return [("nodes_geometry wrong", {"got": ng, "want": sorted(ref.geometry)})]
+    if ng != sorted(ref.geometry, key=str):
+        return [("nodes_geometry wrong", {"got": ng, "want": sorted(ref.geometry, key=str)})]
     wantgn = {}
     for n, ge in ref.geometry.items():
         wantgn.setdefault(ge, []).append(n)
-    if gn != {k: sorted(v) for k, v in wantgn.items()}:
+    if gn != {k: sorted(v, key=str) for k, v in wantgn.items()}:
         return [("geometry_nodes wrong", {"got": gn, "want": wantgn})]
     # flattened: frames connected to base with reference matrices
     connected = {
@@ -448,8 +451,8 @@ def _invariant(ctx, frames, reverse=False):
     if all_conn:
         if o[0] != "ok":
             return [("to_flattened raises although every frame is connected to base", {"got": o[1]})]
-        if sorted(o[1]) != sorted(connected):
-            return [("to_flattened lists wrong frames", {"got": sorted(o[1]), "want": sorted(connected)})]
+        if sorted(o[1], key=str) != sorted(connected, key=str):
+            return [("to_flattened lists wrong frames", {"got": sorted(o[1], key=str), "want": sorted(connected, key=str)})]
         for n, (m, ge) in o[1].items():
             if not _close(m, connected[n]) or ge != ref.geometry.get(n):
                 return [("to_flattened matrix differs", {"node": n, "got": m, "want": connected[n]})]
